@@ -154,6 +154,9 @@ impl OnetimeAuth {
         key: Key,
         input: &Input,
     ) -> Result<(), Error> {
+        if other_mac.len() != CRYPTO_ONETIMEAUTH_BYTES {
+            return Err(dryoc_error!("authentication codes do not match"));
+        }
         crypto_onetimeauth_verify(other_mac.as_array(), input.as_slice(), key.as_array())
     }
 
@@ -191,6 +194,9 @@ impl OnetimeAuth {
         self,
         other_mac: &OtherMac,
     ) -> Result<(), Error> {
+        if other_mac.len() != CRYPTO_ONETIMEAUTH_BYTES {
+            return Err(dryoc_error!("authentication codes do not match"));
+        }
         let computed_mac: Mac = self.finalize();
 
         if other_mac
